@@ -2,8 +2,19 @@ from nucsvc.propspec import propagator
 
 Y_SAME = ("P1.y", "domains[n - 1, MIN] == pre(domains)[n - 1, MIN] and domains[n - 1, MAX] == pre(domains)[n - 1, MAX]")
 
+OD = "old(domains)"
+NOT_INC = "result != PROP_INCONSISTENCY"
+# P5 (exact hull) by closed-form witnesses: all x at their lower bound, y at its upper bound, one coordinate moved to the bound under test
+WIT = lambda xk, yv: f"arr(j, n, ite(j == n - 1, {yv}, ite(j == k, {xk}, {OD}[j, MIN])))"
+P5_MAX_LEQ = [
+    ("P5.x_min", f"implies({NOT_INC}, forall(k, 0, n - 1, let(W, {WIT(OD + '[k, MIN]', OD + '[n - 1, MAX]')}, inbox(W, {OD}, n) and @R(W) and W[k] == domains[k, MIN])))"),
+    ("P5.x_max", f"implies({NOT_INC}, forall(k, 0, n - 1, let(W, {WIT('domains[k, MAX]', OD + '[n - 1, MAX]')}, inbox(W, {OD}, n) and @R(W) and W[k] == domains[k, MAX])))"),
+    ("P5.y_min", f"implies({NOT_INC}, let(k, n - 1, let(W, {WIT('0', 'domains[n - 1, MIN]')}, inbox(W, {OD}, n) and @R(W) and W[n - 1] == domains[n - 1, MIN])))"),
+    ("P5.y_max", f"implies({NOT_INC}, let(k, n - 1, let(W, {WIT('0', 'domains[n - 1, MAX]')}, inbox(W, {OD}, n) and @R(W) and W[n - 1] == domains[n - 1, MAX])))"),
+]
+
 propagator(REG, "nucs/propagators/max_leq_propagator.py::compute_domains_max_leq",
-    rel="forall(k, 0, n - 1, @T[k] <= @T[n - 1])", n_min=2,
+    rel="forall(k, 0, n - 1, @T[k] <= @T[n - 1])", n_min=2, p5=P5_MAX_LEQ,
     loops={1: dict(index="i", fingerprint="for range(len(x))", invariant=[
         ("P1.min", "forall(k, 0, n, domains[k, MIN] == pre(domains)[k, MIN])"),
         Y_SAME,
@@ -12,8 +23,15 @@ propagator(REG, "nucs/propagators/max_leq_propagator.py::compute_domains_max_leq
     ])},
     tags={"P1": ["C05"], "P2": ["C05"]})
 
+WIT2 = lambda xk, yv: f"arr(j, n, ite(j == n - 1, {yv}, ite(j == k, {xk}, {OD}[j, MAX])))"
+P5_MIN_GEQ = [
+    ("P5.x_max", f"implies({NOT_INC}, forall(k, 0, n - 1, let(W, {WIT2(OD + '[k, MAX]', OD + '[n - 1, MIN]')}, inbox(W, {OD}, n) and @R(W) and W[k] == domains[k, MAX])))"),
+    ("P5.x_min", f"implies({NOT_INC}, forall(k, 0, n - 1, let(W, {WIT2('domains[k, MIN]', OD + '[n - 1, MIN]')}, inbox(W, {OD}, n) and @R(W) and W[k] == domains[k, MIN])))"),
+    ("P5.y_min", f"implies({NOT_INC}, let(k, n - 1, let(W, {WIT2('0', 'domains[n - 1, MIN]')}, inbox(W, {OD}, n) and @R(W) and W[n - 1] == domains[n - 1, MIN])))"),
+    ("P5.y_max", f"implies({NOT_INC}, let(k, n - 1, let(W, {WIT2('0', 'domains[n - 1, MAX]')}, inbox(W, {OD}, n) and @R(W) and W[n - 1] == domains[n - 1, MAX])))"),
+]
 propagator(REG, "nucs/propagators/min_geq_propagator.py::compute_domains_min_geq",
-    rel="forall(k, 0, n - 1, @T[k] >= @T[n - 1])", n_min=2,
+    rel="forall(k, 0, n - 1, @T[k] >= @T[n - 1])", n_min=2, p5=P5_MIN_GEQ,
     loops={1: dict(index="i", fingerprint="for range(len(x))", invariant=[
         ("P1.max", "forall(k, 0, n, domains[k, MAX] == pre(domains)[k, MAX])"),
         Y_SAME,
